@@ -74,6 +74,95 @@ def build_real(n, m, leaf):
     return pt.WideRatio([mk(i) for i in range(n)], [mk(n + i) for i in range(m)])
 
 
+def compile_literal(ns, ds, mask, version):
+    """the same shape with some factors written as literals: factor i is Int(value) when mask[i], else the i-th application
+    argument.  ('ok', teal) | ('err', class, message)"""
+    pt = _pt()
+    vals = list(ns) + list(ds)
+    mk = lambda i: pt.Int(vals[i]) if mask[i] else pt.Btoi(pt.Txn.application_args[i])  # noqa: E731
+    try:
+        wr = pt.WideRatio([mk(i) for i in range(len(ns))], [mk(len(ns) + i) for i in range(len(ds))])
+        return ("ok", pt.compileTeal(pt.Return(wr), pt.Mode.Application, version=version, assembleConstants=False))
+    except Exception as e:  # noqa: BLE001
+        return ("err", type(e).__name__, str(e).splitlines()[0][:200] if str(e) else "")
+
+
+def substitute_leaves(teal_arg, vals, mask):
+    """what the literal program must look like: the argument-leaf program with the masked leaves replaced by `int value`"""
+    out, lines, i = [], teal_arg.splitlines(), 0
+    while i < len(lines):
+        ln = lines[i]
+        if ln.startswith("txna ApplicationArgs ") and i + 1 < len(lines) and lines[i + 1] == "btoi" and mask[int(ln.split()[2])]:
+            out.append(f"int {vals[int(ln.split()[2])]}")
+            i += 2
+            continue
+        out.append(ln)
+        i += 1
+    return "\n".join(out)
+
+
+def literal_stream(drv, n, m, version, teal_arg, cases, r, stats, mismatches):
+    """Literal factors must not change the code (no constant-specialised path): the literal program has to be the
+    argument program with the leaves substituted; when it is not, the literal program is executed against the property."""
+    for ns, ds in cases:
+        vals = ns + ds
+        mask = [True] * len(vals) if r.random() < 0.5 else [r.random() < 0.5 for _ in vals]
+        lit = compile_literal(ns, ds, mask, version)
+        stats["literal_programs"] += 1
+        if lit[0] != "ok":
+            mismatches.append({"kind": "literal", "n": n, "m": m, "version": version, "ns": ns, "ds": ds, "mask": mask,
+                               "what": f"WideRatio with literal factors {ns}/{ds} refused at version {version}: {lit[1:]}", "no_input": True})
+            continue
+        if lit[1] == substitute_leaves(teal_arg, vals, mask):
+            stats["literal_same_code"] += 1
+            continue
+        stats["literal_other_code"] += 1
+        tid = f"tl{n}_{m}_{version}"
+        a = drv.ask(f"teal {tid} {hexs(lit[1].encode())}")
+        exp = expected(ns, ds)
+        ex = "unparsed: " + a
+        if a.startswith("ok"):
+            drv.ask(f"ctx c {ctx_sexp(version, vals)}")
+            ex = drv.ask(f"exec {tid} c {FUEL}")
+        got = parse_outcome(ex)
+        if not same(exp, got):
+            mismatches.append({"kind": "literal", "n": n, "m": m, "version": version, "ns": ns, "ds": ds, "mask": mask, "expected": list(exp),
+                               "real_teal_in_lean_avm": ex, "teal": lit[1],
+                               "what": f"WideRatio({ns}, {ds}) with literal factors (mask {mask}) at version {version}: property says {exp}, real TEAL gives `{ex}`"})
+        else:
+            # the code differs but this input agrees: search the literal programs of this shape around the overflow boundary
+            found = None
+            for k in range(200):
+                d2 = [2 ** r.randrange(1, 64) if (k % 2 == 0 or r.random() < 0.5) else gen_u(r, pos=True) for _ in ds]
+                pd = 1
+                for x in d2:
+                    pd *= x
+                if k % 3 == 0 or pd >= T64:
+                    n2, _ = gen_case(r, len(ns), len(ds))
+                    n2 = [clip(x) for x in n2]
+                else:   # numerator product just below / at / above (pd + e) * 2^64
+                    n2 = [M64, clip(pd + r.choice([-1, 0, 1, 1, 2]))] + [1] * (len(ns) - 2) if len(ns) >= 2 else [clip(pd + r.choice([-1, 0, 1]))]
+                    r.shuffle(n2)
+                l2 = compile_literal(n2, d2, [True] * len(vals), version)
+                stats["literal_search_programs"] += 1
+                if l2[0] != "ok" or not drv.ask(f"teal {tid} {hexs(l2[1].encode())}").startswith("ok"):
+                    continue
+                drv.ask(f"ctx c {ctx_sexp(version, n2 + d2)}")
+                ex2 = drv.ask(f"exec {tid} c {FUEL}")
+                if not same(expected(n2, d2), parse_outcome(ex2)):
+                    found = (n2, d2, ex2, l2[1])
+                    break
+            if found is not None:
+                n2, d2, ex2, t2 = found
+                mismatches.append({"kind": "literal", "n": n, "m": m, "version": version, "ns": n2, "ds": d2, "mask": [True] * len(vals),
+                                   "expected": list(expected(n2, d2)), "real_teal_in_lean_avm": ex2, "teal": t2,
+                                   "what": f"WideRatio({n2}, {d2}) with literal factors at version {version}: property says {expected(n2, d2)}, real TEAL gives `{ex2}`"})
+                continue
+            mismatches.append({"kind": "literal", "n": n, "m": m, "version": version, "ns": ns, "ds": ds, "mask": mask, "teal": lit[1], "no_input": True,
+                               "what": f"WideRatio({ns}, {ds}) compiles to other code when factors are literals (mask {mask}, version {version}); "
+                                       f"the verified op list (theorem wideRatio_exact) does not cover it; this input still agrees with the property"})
+
+
 def compile_real(n, m, version, leaf):
     """('ok', teal) | ('err', ExceptionClassName, message)"""
     pt = _pt()
@@ -415,6 +504,7 @@ def run(tier: str) -> int:
     tie_versions = VERSIONS
     exec_versions = [5, 10] if quick else VERSIONS
     per_shape = 36 if quick else 400
+    lit_per_shape = 6 if quick else 40
     stats = Counter()
     drv = Driver()
     try:
@@ -440,6 +530,8 @@ def run(tier: str) -> int:
                             bad_shapes.add((n, m))
                         continue
                     run_cases(drv, n, m, v, real[1], cases, stats, mismatches, cross)
+                    lit_cases = [c for c in cases if any(x and x & (x - 1) == 0 for x in c[1])][:lit_per_shape] + cases[:lit_per_shape]
+                    literal_stream(drv, n, m, v, real[1], lit_cases, r, stats, mismatches)
                 for ns, ds in cases:
                     key = (tuple(ns), tuple(ds))
                     if key not in seen:
